@@ -11,4 +11,6 @@ import sys, os
 sys.path.insert(0, os.path.join(os.getcwd(), "lib"))
 import engine
 print("facts:", engine.ensure_facts("default"))
+# second configuration (`--features wat`): the `.wat` lookup branch of the file-system resolver exists only there (C18)
+print("facts (wat):", engine.ensure_facts("wat"))
 PY
